@@ -43,15 +43,15 @@ def enumerate_d4(w):
             if n.get('k') == 'call' and n.get('dk') == 'Ctor':
                 nm = last_seg(n.get('f') or '')
                 if nm in CT:
-                    sites['ctor:' + nm].add(f['_nid'])
+                    sites['ctor:' + nm].add(f['_xid'])
             if n.get('k') == 'struct':
                 nm = last_seg(n.get('p') or '')
                 if nm in CT:
-                    sites['lit:' + nm].add(f['_nid'])
+                    sites['lit:' + nm].add(f['_xid'])
             if n.get('k') in ('call', 'mcall') and 'f' in n:
                 c = callee(n) or ''
                 if last_seg(c) in UNSAFE:
-                    sites['unsafe:' + last_seg(c)].add(f['_nid'])
+                    sites['unsafe:' + last_seg(c)].add(f['_xid'])
     return sites
 
 
@@ -63,7 +63,8 @@ def assertish(c):
 def mine_mustcalls(w):
     midx = w.mir_index()
     rows = []
-    for nid, b in sorted(midx.items()):
+    allb = sorted(((b['_xid'], b) for nid0 in midx for b in w.mir_bodies(nid0)), key=lambda x: x[0])
+    for nid, b in allb:
         if b['_crate'] not in ('circuits', 'zk_stdlib', 'aggregator') or '::tests::' in nid or '/tests' in b['file'] or '{closure' in nid:
             continue
         prop = prop_of_file(b['file'])
@@ -74,6 +75,51 @@ def mine_mustcalls(w):
             ok, _ = mc.must_call(b, lambda c, t, g=g: c == g)
             if ok:
                 rows.append(dict(property=prop, fn=nid, must_call=g))
+    return rows
+
+
+ITER_ADAPTORS = {'map', 'try_for_each', 'for_each', 'filter_map', 'flat_map', 'fold', 'try_fold', 'all', 'any', 'zip', 'scan'}
+
+
+def looped_checks(f):
+    """assert-like workspace callees invoked inside a loop / iterator closure of f (HIR)"""
+    from ..core import children
+    out = set()
+
+    def rec(n, in_loop):
+        k = n.get('k')
+        if k in ('call', 'mcall') and 'f' in n:
+            c = callee(n) or ''
+            if in_loop and assertish(c) and c.startswith(('midnight_', '<midnight_')):
+                out.add(c)
+            if k == 'mcall' and n.get('m') in ITER_ADAPTORS:
+                rec(n['recv'], in_loop)
+                for a in n.get('args', []):
+                    rec(a, True if peel(a).get('k') == 'closure' else in_loop)
+                return
+        if k == 'for':
+            rec(n['iter'], in_loop)
+            rec(n['body'], True)
+            return
+        if k == 'loop':
+            rec(n['body'], True)
+            return
+        for c2 in children(n):
+            rec(c2, in_loop)
+    rec(f['body'], False)
+    return out
+
+
+def mine_looped(w):
+    rows = []
+    for f in w.all_fns(CRATES):
+        if '::tests::' in f['_nid'] or '/tests' in f['file']:
+            continue
+        prop = prop_of_file(f['file'])
+        if prop is None:
+            continue
+        for g in sorted(looped_checks(f)):
+            rows.append(dict(property=prop, fn=f['_xid'], looped_call=g))
     return rows
 
 
@@ -103,8 +149,8 @@ def run_d(ck, w, prop, floors):
             for s in sites:
                 nsites += 1
                 ann = dlint.lit_annotation(s)
-                key = f'{f["_nid"]}|{ann}'
-                tab = tables.D1_TABLE.get(key) or tables.D1_TABLE.get(f['_nid'] + '|*')
+                key = f'{f["_xid"]}|{ann}'
+                tab = tables.D1_TABLE.get(f'{f["_nid"]}|{ann}') or tables.D1_TABLE.get(f['_nid'] + '|*')
                 off = dlint.offset_key(s['args'][2]) if len(s.get('args', [])) >= 3 else None
                 precise = [a for a in acts if a[1] is not None and off is not None and a[1][0] == off[0] and abs(a[1][1] - off[1]) <= 3]
                 loose = [a for a in acts if a[1] is None or off is None or (off[0] and not off[0].isidentifier()) or (a[1][0] and not a[1][0].isidentifier())]
@@ -154,7 +200,7 @@ def run_d(ck, w, prop, floors):
     nd4 = 0
     for cls, sites in sorted(cur.items()):
         for nid in sorted(sites):
-            f = w.fn(nid, required=False)
+            f = w.fn_x(nid, required=False)
             if f is None or not in_scope(f, prop):
                 continue
             nd4 += 1
@@ -162,13 +208,47 @@ def run_d(ck, w, prop, floors):
                       f'{nid} builds/uses {cls} but is not in the who-may-construct table: the invariant of the type (booleanity, byte range, bound, '
                       f'well-formed limbs, subgroup membership…) is asserted without a tabled justification', hirq.fn_loc(f))
     ck.floor(f'{P}.D4', 'constructor / escape-hatch sites', nd4, floors.get('d4', 0))
+    # ------------------------------------------------------------------ D6
+    ck.rule(f'{P}.D6', 'parallel-projection symmetry: when a two-argument operation combines numeric tuple components of two sibling values of the same tuple type '
+                       '(e.g. the (lower, upper) limb bounds of x and y), both sides use the same component; cross combinations are tabled (interval subtraction)')
+    n6 = 0
+    def tupfield(n):
+        n = peel(n)
+        while n.get('k') == 'mcall' and n.get('m') in ('clone',):
+            n = peel(n['recv'])
+        if n.get('k') == 'field' and n['n'].isdigit():
+            b = peel(n['e'])
+            if b.get('k') == 'local':
+                return (b['i'], b['n'], n['n'], b.get('t'))
+        return None
+    for f in fns:
+        for n in walk(f['body']):
+            args = None
+            if n.get('k') in ('call', 'mcall'):
+                args = ([n['recv']] if 'recv' in n else []) + n.get('args', [])
+            elif n.get('k') == 'bin':
+                args = [n['a'], n['b']]
+            if not args or len(args) != 2:
+                continue
+            a, b = tupfield(args[0]), tupfield(args[1])
+            if a and b and a[0] != b[0] and a[3] == b[3]:
+                n6 += 1
+                key = f'{f["_nid"]}|{a[1]}.{a[2]}~{b[1]}.{b[2]}'
+                if a[2] == b[2]:
+                    ck.ok(f'{P}.D6', key, 'same component on both sides', hirq.fn_loc(f, n))
+                elif key in tables.D6_TABLE:
+                    ck.ok(f'{P}.D6', key, 'tabled: ' + tables.D6_TABLE[key], hirq.fn_loc(f, n))
+                else:
+                    ck.bad(f'{P}.D6', key, f'{f["_nid"]}: combines component .{a[2]} of `{a[1]}` with component .{b[2]} of `{b[1]}` (same tuple type): every sibling '
+                           f'site pairs equal components; a lower bound mixed with an upper bound mis-states the bookkeeping the later checks rely on', hirq.fn_loc(f, n))
+    ck.count(f'{P}.D6 sites', n6)
     # ------------------------------------------------------------------ D5
     ck.rule(f'{P}.D5', 'must-call table: each listed function reaches the listed constraint-emitting call on every success path (rules/mustcall.json: '
                        'pairs that hold unconditionally on the reference tree; a pair may be satisfied through a callee that itself must-calls)')
     rows = [r for r in load_rules('mustcall.json') if r['property'] == prop]
     n5 = 0
     for r in rows:
-        b = w.mir_body(r['fn'], required=False)
+        b = w.mir_body_x(r['fn'], required=False)
         if b is None:
             ck.bad(f'{P}.D5', f'{r["fn"]}|{short(r["must_call"])}:anchor', f'function {r["fn"]} of the must-call table not found (renamed/removed: needs triage)')
             continue
@@ -184,3 +264,17 @@ def run_d(ck, w, prop, floors):
         ck.record(f'{P}.D5', f'{r["fn"]}|{short(g)}', ok, f'calls {short(g)} on every success path',
                   f'{r["fn"]} no longer reaches {g} on every success path: the check it emitted unconditionally can now be skipped', reach.loc(b))
     ck.floor(f'{P}.D5', 'must-call pairs', n5, floors.get('mustcall', 0))
+    # looped checks: (function, check) pairs where the check is applied to every element of an iteration
+    ck.rule(f'{P}.D5b', 'looped checks: each listed function still applies the listed constraint-emitting call inside a loop / iterator closure '
+                        '(rules/looped.json: per-element checks — limb range checks, byte re-linking, per-bit assertions — that a must-call rule cannot see '
+                        'because a loop may run zero times)')
+    rowsl = [r for r in load_rules('looped.json') if r['property'] == prop]
+    for r in rowsl:
+        f = w.fn_x(r['fn'], required=False)
+        if f is None:
+            ck.bad(f'{P}.D5b', f'{r["fn"]}|{short(r["looped_call"])}:anchor', f'function {r["fn"]} of the looped-check table not found (needs triage)')
+            continue
+        ok = r['looped_call'] in looped_checks(f)
+        ck.record(f'{P}.D5b', f'{r["fn"]}|{short(r["looped_call"])}', ok, f'{short(r["looped_call"])} applied per element',
+                  f'{r["fn"]} no longer applies {r["looped_call"]} inside its iteration: the per-element check was dropped or hoisted out of the loop', hirq.fn_loc(f))
+    ck.count(f'{P}.D5b pairs', len(rowsl))
